@@ -415,7 +415,7 @@ func PanicSite() string {
 	var out []string
 	for i := 0; i+1 < len(lines); i++ {
 		l := strings.TrimSpace(lines[i+1])
-		if strings.Contains(l, "/repo/") && !strings.Contains(l, "zzverif") && !strings.Contains(l, "/verifmc/") && strings.Contains(l, ".go:") {
+		if strings.Contains(l, repoPrefix()) && !strings.Contains(l, "zzverif") && !strings.Contains(l, "/verifmc/") && strings.Contains(l, ".go:") {
 			fn := strings.TrimSpace(lines[i])
 			if j := strings.LastIndex(fn, "("); j > 0 {
 				fn = fn[:j]
@@ -430,6 +430,20 @@ func PanicSite() string {
 		}
 	}
 	return strings.Join(out, "<")
+}
+
+func repoPrefix() string {
+	if r := os.Getenv("VERIF_REPO"); r != "" {
+		return strings.TrimRight(r, "/") + "/"
+	}
+	return "/repo/"
+}
+
+// OutcomeN counts n occurrences of an outcome class at once.
+func (c *Check) OutcomeN(o string, n int64) {
+	c.mu.Lock()
+	c.outcomes[o] += n
+	c.mu.Unlock()
 }
 
 // CatchSite runs f; on panic returns the value and the repository frames.
